@@ -477,7 +477,8 @@ def main(chk):
     w2c2 = env.build_translator('plain')
     nh = 120 if quick else 400
     nops = 300 if quick else 2000
-    builds = [('gcc-O1', 'gcc', ['-O1'])] + ([] if quick else [('clang-O2', 'clang', ['-O2'])])
+    # (plain char is unsigned in the default ABI of several supported targets, e.g. ARM and PowerPC Linux: -funsigned-char reproduces that)
+    builds = [('gcc-O1', 'gcc', ['-O1']), ('gcc-O1-unsigned-char', 'gcc', ['-O1', '-funsigned-char'])] + ([] if quick else [('clang-O2', 'clang', ['-O2'])])
 
     def one(k):
         rnd = env.rng('c05', k)
